@@ -842,20 +842,61 @@ def check_allocs(ctx, B, rule, reviewed=None, key_prefix='ALLOC'):
     return n
 
 
+def _mentions_wire_number(c):
+    """does canonical value c contain a number read from the input by a nom number parser?"""
+    if isinstance(c, tuple):
+        if len(c) >= 2 and c[0] == 'call' and isinstance(c[1], str) and c[1].startswith('nom::number::'):
+            return True
+        return any(_mentions_wire_number(x) for x in c)
+    return False
+
+
 def check_read_to_end(ctx, B, rule):
-    """Read::read_to_end / read_to_string must be called on a length-limited reader (io::Take)."""
+    """Read::read_to_end / read_to_string must be called on a length-limited reader (io::Take) whose limit is the
+    size the input declares (plus at most a few bytes to detect an overrun), or a small constant."""
     n = 0
+    R = None
     for bb, t in B.calls():
         g, r = callee_of(t)
         if g in ('std::io::Read::read_to_end', 'std::io::Read::read_to_string'):
             n += 1
             recv = t['aty'][0] if t.get('aty') else ''
             inst = '%s:%s' % (B.path, g.rsplit('::', 1)[1])
-            if 'std::io::Take<' in recv:
-                ctx.ok(rule, inst, 'reads through %s' % recv, ctx.where(B, bb))
-            else:
+            if 'std::io::Take<' not in recv:
                 ctx.bad(rule, inst, 'unbounded %s on %s: the output grows with whatever the stream inflates to, not with the input or the declared size' % (
                     g.rsplit('::', 1)[1], recv), ctx.where(B, bb), key='ALLOC:%s:unbounded' % inst)
+                continue
+            # the limit handed to take()
+            takes = [(b2, t2) for b2, t2 in B.calls() if is_call_to(t2, 'std::io::Read::take')]
+            c0 = canon(B, t['args'][0])
+            tk = [x for x in takes if c0 == ('call', 'std::io::Read::take', x[0])]
+            if len(tk) != 1:
+                ctx.undecided(rule, inst, 'the Take reader is not built by a single take() call in this function (%s)' % describe(B, c0), ctx.where(B, bb))
+                continue
+            b2, t2 = tk[0]
+            R = R or Ranges(B)
+            lim = canon(B, t2['args'][1])
+            rng = R.range_of(t2['args'][1], b2)
+            core = lim
+            slack = 0
+            while isinstance(core, tuple) and core[0] in ('bin', 'cast'):
+                if core[0] == 'cast':
+                    core = core[-1] if isinstance(core[-1], tuple) else core[1]
+                    continue
+                if core[1] == 'Add' and core[3][0] == 'const' and isinstance(core[3][1], int):
+                    slack += core[3][1]
+                    core = core[2]
+                    continue
+                break
+            if _mentions_wire_number(core) and core[0] != 'bin' and slack <= 8:
+                ctx.ok(rule, inst, 'reads through %s limited to %s (the size the input declares%s)' % (recv, describe(B, lim), ' + %d' % slack if slack else ''), ctx.where(B, bb))
+            elif rng[1] <= 1 << 20:
+                ctx.ok(rule, inst, 'reads through %s limited to at most %s bytes' % (recv, rng[1]), ctx.where(B, bb))
+            elif not _mentions_wire_number(lim):
+                ctx.bad(rule, inst, 'the reader is limited to %s (up to %s bytes), which is not the size the input declares: a small input that under-declares its size still inflates that much'
+                        % (describe(B, lim), rng[1]), ctx.where(B, b2), key='ALLOC:%s:limit-not-declared-size' % inst)
+            else:
+                ctx.undecided(rule, inst, 'limit %s not recognised as declared size + small constant' % describe(B, lim), ctx.where(B, b2))
     return n
 
 
